@@ -381,6 +381,7 @@ def classes():
                 h = EventHook(event=self, hook_type=spec["type"], is_before=spec["before"], time=t,
                               specific_class=cls, specific_instance=inst)
                 h.spec = spec
+                h.intended_time = t     # what the event asked for (the hook object may store it differently)
                 out.append(h)
             self.hooks = out
             taps.emit("probe_registered", event=self, hooks=out)
@@ -481,6 +482,13 @@ def classes():
                         simulator.name2market[ch["market"]].change_fundamental_price(scale=ch["value"])
                     elif ch["what"] == "shares":
                         simulator.name2market[ch["market"]].outstanding_shares = ch["value"]
+                    elif ch["what"] == "ensure_component":
+                        # "make sure this market is a constituent": the add is refused for one that already is
+                        try:
+                            simulator.name2market[ch["index"]]._add_market(simulator.name2market[ch["market"]])
+                            taps.hits["REFUSAL-EXPECTED-BUT-ACCEPTED:duplicate_component"] += 1
+                        except ValueError:
+                            taps.hits["refused_request:duplicate_component_then_normal_use"] += 1
                     taps.emit("fund_change_ret", sim=simulator, change=ch, time=market.get_time())
 
         def hooked_after_step_for_market(self, simulator, market):
@@ -663,6 +671,11 @@ def run_runner_case(case, sinks=(), with_logger=True, extra_classes=(), settings
                     v["class"] = "Extending" + v["class"]
                 if isinstance(v, dict) and v.get("userSubclass") and v.get("class") == "IndexMarket":
                     v["class"] = "UserIndexMarket"
+            if case.get("decoy_classes"):
+                # another experiment of the same process: classes with the same names but other behaviour
+                cls = dict(cls)
+                for nm in ("ScriptAgent", "ScriptHFTAgent", "FalsyScriptAgent"):
+                    cls[nm] = type(nm, (cls[nm],), {"submit_orders": lambda self, markets: []})
             for c in (cls["ScriptAgent"], cls["ScriptHFTAgent"], cls["ProbeEvent"], cls["DerivedProbeEvent"], cls["DepthMarket"],
                       cls["FalsyScriptAgent"]) + tuple(v for k, v in cls.items() if k.startswith(("Retry", "Extending", "UserIndex"))) \
                     + tuple(extra_classes):
